@@ -17,7 +17,19 @@ THEOREMS = ['fid_closed_form', 'se_closed_form', 'pdd_model_eq', 'pdd_closed_for
             'ff_no_control_sigma_z_error', 'engine_sign_sequence', 'engine_eq_ddF',
             'engine_eq_ddF_error', 'engine_fid', 'engine_se', 'engine_pdd', 'engine_cpmg',
             'engine_udd', 'engine_cdd', 'se_example_mask', 'se_example']
-LEAN_MODULES = ['FFVerif.Props.C19', 'FFVerif.Props.C19Engine']
+LEAN_MODULES = ['FFVerif.Props.C19', 'FFVerif.Props.C19Engine', 'FFVerif.Props.C19Width']
+# module C19Width: finite-width pi pulses — |B_w - B_ideal| <= n w (|tr(B C_k)| + |B|_F |C_k|_F), hence w^2... the filter function
+# times omega^2 tends to the closed forms as the width goes to zero (SE; PDD, CPMG, UDD of every order)
+THEOREMS = THEOREMS + [
+    'FFVerif.C19.cm_toggling_frame', 'FFVerif.C19.cm_finite_width_free',
+    'FFVerif.C19.cm_finite_width', 'FFVerif.C19.finite_width_tendsto',
+    'FFVerif.C19.finite_width_tendsto_se', 'FFVerif.C19.finite_width_tendsto_pdd',
+    'FFVerif.C19.finite_width_tendsto_cpmg', 'FFVerif.C19.finite_width_tendsto_udd',
+    'FFVerif.C19.sew_mask', 'FFVerif.C19.sew_coeffs',
+    'FFVerif.C19.se_width_example', 'FFVerif.C19.se_width_tendsto_example',
+    'FFVerif.C19.finite_width_mask_eventually', 'FFVerif.C19.finite_width_tendsto_strict',
+    'FFVerif.WidthAux.segProp_pi', 'FFVerif.WidthAux.propagators_width',
+    'FFVerif.WidthAux.SEW.finiteWidth', 'FFVerif.WidthAux.finiteWidth_free_dur']
 PINS = ['pinFID', 'pinSE', 'pinPDD', 'pinCPMG', 'pinCDD', 'pinUDD']
 GEN_SITES = []
 COMPONENTS = ['analytic']
